@@ -1471,7 +1471,7 @@ func c16Builder(c *eng.Ctx, V string) {
 				skipIssuer := eng.CondEdges(f, `^φ\w+\{false\|true\}$`, true)
 				for _, e := range skipIssuer {
 					if ph, ok := eng.IfOf(e.From).Cond.(*ssa.Phi); ok {
-						set := eng.PhiEdges(f, ph.Comment, func(v ssa.Value) bool { return eng.Expr(v) == "true" })
+						set := eng.PhiEdges(f, eng.VarName(ph), func(v ssa.Value) bool { return eng.Expr(v) == "true" })
 						c.CutEdges(f, "record skipped as an issuer certificate", set, eng.G(f, `^bytes\.Equal\(\)$`, true))
 					}
 				}
